@@ -49,7 +49,7 @@ Lemma src_legacy_digest_eq : forall sha256 (i : nat) sc ht v ins outs w l sw,
   src_legacy_digest sha256 (Z.of_nat i) sc ht v ins outs w l =
   of_option (legacy_digest sha256 {| tx_version := v; tx_inputs := ins; tx_outputs := outs; tx_locktime := l; tx_segwit := sw; tx_witnesses := w |} i sc ht).
 Proof.
-  intros. unfold src_legacy_digest, legacy_digest, legacy_preimage, tx_copy, obind, py_truthy_int.
+  intros. unfold src_legacy_digest. not_fallback (@legacy_digest). unfold legacy_digest, legacy_preimage, tx_copy, obind, py_truthy_int.
   cbn [tx_version tx_inputs tx_outputs tx_locktime tx_segwit tx_witnesses]. cbv zeta.
   rewrite map_id_copy_in, map_id_copy_out, !map_length.
   rewrite py_update_nth_nat, map_length.
